@@ -381,11 +381,134 @@ def directed_cases():
     add("d_node_only", [mkstruct("top", [e_node(1, 0, [0, 0, 1, 1])])])
     return out
 
+def audit_cases():
+    """directed families added by the generator audit (2026-10-02): one small case per input class that the families above
+    never reach.  Each name shows up in input_distribution; `layers` = the caller's layer table handed to from_gds."""
+    out = []
+    def add(fam, structs, layers=None, **kw):
+        c = dict(fam=fam, lib=mklib(structs, **kw))
+        if layers:
+            c["layers"] = layers
+        out.append(c)
+    L = leaf()
+    L2 = mkstruct("leaf", [e_boundary(1, 0, closed([(0, 0), (6, 0), (6, 2), (2, 2), (2, 5), (0, 5)])), e_path(2, 0, [0, 0, 4, 0, 4, 5], 2)])
+    E = (1 << 31) - 1
+    # 1. right angles spelled beyond one turn / as negative zero (quarters_of judges every whole multiple of 90)
+    for k, a in enumerate((-0.0, 450.0, 540.0, 630.0, 720.0, 810.0, -360.0, -450.0, -540.0, -630.0, 3690.0, -3690.0)):
+        refl = k % 2 == 1
+        add("d_angle_spelling", [L2, mkstruct("top", [e_sref("leaf", (10, 20), strans(refl, a)), e_aref("leaf", [0, 0, 0, 20, -30, 0], 2, 3, strans(not refl, a))])])
+    add("d_angle_spelling", [L2, mkstruct("mid", [e_sref("leaf", (7, -3), strans(True, 450.0))]), mkstruct("top", [e_sref("mid", (-5, 11), strans(False, -630.0)), e_sref("mid", (1, 1), strans(True, 810.0))])])
+    # 2. a caller-supplied layer table: known (layer, purpose) pairs resolve to the registered purpose, new ones are added
+    tables = [
+        [{"num": 1, "name": "met1", "pairs": [[0, "Drawing"], [5, "Pin"], [7, "Label"]]}, {"num": 4, "name": None, "pairs": [[0, "Obstruction"], [20, {"Named": ["fill", 20]}]]}],
+        [{"num": 9, "name": "unused", "pairs": [[0, "Drawing"]]}, {"num": 2, "name": "via", "pairs": [[3, {"Other": 3}], [1, "Outline"]]}, {"num": 1, "name": None, "pairs": []}],
+        [{"num": -1, "name": "neg", "pairs": [[-3, "Pin"], [32767, "Label"]]}],
+    ]
+    for t in tables:
+        top = [e_boundary(1, 0, rect_xy(0, 0, 10, 6)), e_boundary(1, 5, rect_xy(20, 0, 30, 6)), e_boundary(1, 9, rect_xy(40, 0, 50, 6)), e_text("VDD", 1, 7, (5, 3)),
+               e_path(2, 3, [0, 20, 10, 20], 2), e_box(2, 1, rect_xy(0, 30, 4, 34)), e_boundary(4, 20, closed(POLY_TEMPLATES[0])), e_boundary(4, 0, rect_xy(-9, -9, -2, -2)),
+               e_boundary(-1, -3, rect_xy(60, 0, 70, 6)), e_boundary(-1, 32767, rect_xy(60, 10, 70, 16)), e_text("x", 9, 0, (0, 0)), e_boundary(3, 0, rect_xy(0, 40, 2, 42))]
+        add("d_layers_given", [mkstruct("top", top)], layers=t)
+        add("d_layers_given", [mkstruct("top", [e_sref("leaf", (3, 3), strans(True, 90.0)), top[1], top[6]]), mkstruct("leaf", top[:5])], layers=t)
+    # 3. the tolerance of every database unit, both sides; the user unit is not looked at
+    for u, tol in ((1e-12, 1e-15), (1e-10, 1e-13), (1e-9, 1e-12), (1e-6, 1e-9)):
+        for d in (0.9, -0.9, 1.1, -1.1, 0.999999, 1.000001):
+            add("d_units_edge", [L], units=[G.f2b(1e-3), G.f2b(u + d * tol)])
+        add("d_units_edge", [L], units=[G.f2b(1e-3), G.f2b(-u)])
+    for u0 in (0.0, -1.0, float("inf"), 1e300):
+        add("d_units_edge", [L], units=[G.f2b(u0), G.f2b(1e-9)])
+    add("d_units_edge", [L], units=[0x7FF8000000000000, G.f2b(1e-6)])
+    for u in (float("inf"), -float("inf"), 5e-324, 1e-11, 1e-7, 1e-13):
+        add("d_units_edge", [L], units=[G.f2b(1e-3), G.f2b(u)])
+    # 4. path widths at the i32 limits; labels exactly at / just beyond half the width, on each side, odd / even / negative widths
+    for w in (-E - 1, -E, E, E - 1, -1, 1):
+        add("d_path_width_edge", [mkstruct("top", [e_path(1, 0, [0, 0, 10, 0], w)])])
+        add("d_path_width_edge", [mkstruct("top", [e_path(1, 0, [0, 0, 10, 0], w), e_text("A", 1, 0, (5, abs(w) // 2)), e_text("B", 1, 0, (5, abs(w) // 2 + 1))])])
+    for w in (4, 5, -4, -5, 0, 1):
+        h = abs(w) // 2
+        for q in ((5, h), (5, h + 1), (5, -h), (5, -h - 1), (0, h), (10, -h), (-1, 0), (11, 0)):
+            add("d_path_label_halfwidth", [mkstruct("top", [e_path(1, 0, [0, 0, 10, 0], w), e_text("N", 1, 0, q)])])
+        for q in ((h, 5), (h + 1, 5), (-h, 5), (-h - 1, 5), (0, 11), (0, -1)):
+            add("d_path_label_halfwidth", [mkstruct("top", [e_path(1, 0, [0, 10, 0, 0], w), e_text("N", 1, 0, q)])])
+    # 5. lattices: pitches that do not divide (truncation toward zero, negative numerators), and the full i32 span
+    for xy, cols, rows in (([0, 0, -21, 0, 0, -31], 2, 3), ([0, 0, 0, -21, 31, 0], 2, 3), ([5, 5, -2, 12, 12, -2], 3, 3), ([0, 0, -1, -1, 1, 1], 2, 2),
+                           ([0, 0, 7, -7, -7, 7], 2, 4)):
+        add("s_lattice_trunc", [L, mkstruct("top", [e_aref("leaf", xy, cols, rows)])])
+    add("d_lattice_span", [L, mkstruct("top", [e_aref("leaf", [-E - 1, -E - 1, E, -E - 1, -E - 1, E], 3, 5)])])
+    add("d_lattice_span", [L, mkstruct("top", [e_aref("leaf", [E, E, -E - 1, E, E, -E - 1], 5, 3, strans(True, 180.0))])])
+    add("d_lattice_span", [L, mkstruct("top", [e_aref("leaf", [-E - 1, E, E, -E - 1, E, E], 3, 3)])])
+    # 6. the optional fields the importer never reads: present on every element kind, nothing may change
+    def withopt(e, k):
+        e = dict(e)
+        e["elflags"] = [[0, 1], [0, 2], [0, 3], [255, 255]][k % 4]
+        e["plex"] = [1, -5, 0x1000000, E][k % 4]
+        e["props"] = [[(1, b"v")], [(127, b""), (2, b"two")], [(-3, b"\xc3\xa4")], []][k % 4]
+        return e
+    t1 = dict(e_text("VDD", 1, 0, (1, 1)), presentation=[0, 5], path_type=1, width=-7, strans=strans(True, 90.0, 2.0))
+    t2 = dict(e_text("far", 1, 0, (90, 90)), presentation=[255, 255], path_type=4, width=E, strans=strans(False, None, None, True, True))
+    p4 = dict(e_path(2, 0, [0, 0, 10, 0], 4, 4), begin_extn=3, end_extn=-2)
+    p4b = dict(e_path(2, 0, [0, 0, 0, 10], 5, 4), begin_extn=None, end_extn=7)
+    opt_els = [e_boundary(1, 0, rect_xy(0, 0, 3, 2)), e_box(1, 1, rect_xy(5, 5, 8, 9)), p4, p4b, t1, t2, e_node(1, 0, [0, 0, 1, 1]),
+               e_boundary(1, 2, closed(POLY_TEMPLATES[1])), e_text("q", 2, 0, (5, 1))]
+    add("d_optional_fields", [mkstruct("top", opt_els)])
+    add("d_optional_fields", [mkstruct("top", [withopt(e, k) for k, e in enumerate(opt_els)])])
+    add("d_optional_fields", [mkstruct("leaf", [withopt(e, k + 1) for k, e in enumerate(opt_els)]),
+                              mkstruct("top", [withopt(e_sref("leaf", (10, 20), strans(True, 270.0)), 0), withopt(e_aref("leaf", [0, 0, 40, 0, 0, 60], 2, 3), 1)])])
+    for pt in (0, 1, 2, 4, 3, -1, 32767):
+        add("d_optional_fields", [mkstruct("top", [dict(e_path(1, 0, [0, 0, 10, 0, 10, 10], 4, pt), begin_extn=5, end_extn=5), e_text("A", 1, 0, (-1, 0)), e_text("B", 1, 0, (10, 11))])])
+    # 7. deep and wide hierarchies: a chain of 12 cells in mixed orientations, arrays of arrays of arrays, 300 references in one cell
+    chain = [L2]
+    prev = "leaf"
+    for k in range(12):
+        nm = "n%d" % k
+        chain.append(mkstruct(nm, [e_sref(prev, (k + 1, 2 * k - 7), strans(k % 3 == 0, [90.0, None, 270.0, 180.0, 0.0][k % 5])), e_boundary(3, k, rect_xy(0, 0, k + 1, 1))]))
+        prev = nm
+    add("d_deep_chain", list(reversed(chain)))
+    add("d_deep_chain", chain[:7])
+    add("d_deep_chain", [L, mkstruct("a1", [e_aref("leaf", [0, 0, 8, 0, 0, 6], 2, 2, strans(False, 90.0))]), mkstruct("a2", [e_aref("a1", [0, 0, 0, 40, -40, 0], 2, 2, strans(True, 90.0))]),
+                         mkstruct("a3", [e_aref("a2", [5, 5, 205, 5, 5, 205], 2, 2, strans(True, 270.0)), e_sref("a1", (-9, -9), strans(True))])])
+    add("d_wide_cell", [mkstruct("top", [e_sref("leaf", (3 * k, -k), strans(k % 2 == 0, [None, 90.0, 180.0, 270.0][k % 4]) if k % 5 else None) for k in range(300)]), L])
+    # 8. names: case matters, empty and non-ASCII names, brackets (the array instance names are built from them)
+    add("d_names", [mkstruct("Top", [e_sref("LEAF", (1, 1)), e_sref("leaf", (9, 9)), e_sref("Leaf", (20, 20), strans(True))]), mkstruct("leaf", [e_boundary(1, 0, rect_xy(0, 0, 3, 2))]),
+                    mkstruct("LEAF", [e_boundary(2, 0, rect_xy(0, 0, 1, 1))]), mkstruct("Leaf", [e_path(3, 0, [0, 0, 5, 0], 2)])], name=b"MyLib")
+    add("d_names", [mkstruct("top", [e_sref("", (1, 1)), e_aref("a[0][1]", [0, 0, 20, 0, 0, 30], 2, 3), e_sref("äÖ中", (5, 5))]), mkstruct("", [e_boundary(1, 0, rect_xy(0, 0, 3, 2))]),
+                    mkstruct("a[0][1]", [e_boundary(1, 0, rect_xy(0, 0, 1, 1))]), mkstruct("äÖ中", [e_boundary(1, 0, rect_xy(0, 0, 2, 2))])], name="ä lib".encode("utf8"))
+    add("d_names", [mkstruct("x" * 300, [e_boundary(1, 0, rect_xy(0, 0, 3, 2))]), mkstruct("top", [e_sref("x" * 300, (1, 1)), e_sref("x" * 299, (1, 1))]), mkstruct("x" * 299, [])], name=b"")
+    add("m_names_case", [mkstruct("top", [e_sref("LEAF", (1, 1))]), L])
+    # 9. label strings at the edges of the ASCII letter ranges, empty, blank, the same name twice / in another case
+    R = e_boundary(4, 0, rect_xy(0, 0, 10, 6))
+    for sname in ("@[\\]^_`{|}~", "AZaz09", "", "a B", "\x7f\x01Z", "VDD!", "<3>", " Pad ", "\tT\n"):
+        add("d_label_chars", [mkstruct("top", [R, e_text(sname, 4, 0, (5, 3)), e_text(sname, 4, 0, (50, 3))])])
+    add("d_label_repeat", [mkstruct("top", [R, e_text("VDD", 4, 0, (5, 3)), e_text("vdd", 4, 1, (6, 3)), e_text("VDD", 4, 0, (7, 3))])])
+    add("d_label_repeat", [mkstruct("top", [e_text("b", 4, 0, (5, 3)), e_text("A", 4, 0, (5, 3)), R])])
+    # 10. layer and datatype numbers at the i16 limits (a text on such a layer as well)
+    for lay, dt in ((-32768, -32768), (32767, 32767), (-32768, 32767), (0, -32768)):
+        add("d_i16_edge", [mkstruct("top", [e_boundary(lay, dt, rect_xy(0, 0, 10, 6)), e_text("A", lay, dt, (5, 3)), e_path(lay, -dt - 1, [0, 20, 10, 20], 2), e_box(-lay - 1, dt, rect_xy(0, 30, 4, 34)),
+                                             e_text("B", -lay - 1, 0, (1, 31))])])
+    # 11. listing order: the user listed before what it uses, reached through an array only / through two ways (diamond)
+    add("d_aref_dep_order", [mkstruct("top", [e_aref("leaf", [0, 0, 20, 0, 0, 30], 2, 3)]), L])
+    add("d_aref_dep_order", [mkstruct("top", [e_aref("mid", [0, 0, 20, 0, 0, 30], 2, 1, strans(False, 90.0))]), mkstruct("mid", [e_aref("leaf", [1, 1, 1, 9, 1, 1], 2, 1)]), L])
+    for order in ((0, 1, 2), (0, 2, 1), (1, 0, 2), (2, 0, 1)):
+        ss = [mkstruct("top", [e_sref("mid", (10, 0), strans(False, 90.0)), e_sref("leaf", (0, 10))]), mkstruct("mid", [e_sref("leaf", (1, 1), strans(True)), e_aref("leaf", [0, 0, 8, 0, 0, 8], 2, 2)]), L]
+        add("d_diamond", [ss[k] for k in order])
+    # 12. magnifications that only a comparison with exactly 1.0 classifies
+    for m in (float("nan"), float("inf"), 0.0, -0.0, 1.0000000000000002, 0.9999999999999999, -1.0, 5e-324):
+        add("m_mag_special", [L, mkstruct("top", [e_sref("leaf", (1, 1), strans(False, None, m))])])
+    add("m_mag_special", [L, mkstruct("top", [e_sref("leaf", (1, 1), strans(False, None, 0x7FF0000000000001))])])
+    # 13. angles that are no numbers (not judged; no crash)
+    for a in (float("nan"), float("inf"), -float("inf"), 1e300, 5e-324):
+        add("s_angle_nonfinite", [L, mkstruct("top", [e_sref("leaf", (10, 20), strans(True, a))])])
+    # 14. struct names repeated (outside the model and the specification: not judged; no crash)
+    add("s_dupname", [L, leaf("leaf", 2), mkstruct("top", [e_sref("leaf", (1, 1))])])
+    add("s_dupname", [mkstruct("top", [e_sref("leaf", (1, 1))]), L, leaf("leaf", 2)])
+    add("s_dupname", [L, mkstruct("top", [e_sref("leaf", (1, 1))]), mkstruct("top", [e_aref("leaf", [0, 0, 20, 0, 0, 30], 2, 3)])])
+    return out
+
 def gen_cases(chk):
     rng = chk.rng
     quick = chk.tier == "quick"
     g = Gen(rng)
-    cases = directed_cases()
+    cases = directed_cases() + audit_cases()
     def add(fam, lib):
         cases.append(dict(fam=fam, lib=lib))
     mult = 1 if quick else 12
@@ -732,8 +855,11 @@ def cimpl(r, noflat):
     flats = r.get("flat") or [None] * len(lib["cells"])
     return Raw("(MLib %s [%s])" % (clib(lib), ";".join(cflat(f, noflat) for f in flats)))
 
-def probes_of(lib):
+def probes_of(lib, layers=None):
     s = set(range(-1, 13))
+    for l in layers or []:       # the caller's layer table (family d_layers_given): its purpose numbers are observed too
+        for p in l["pairs"]:
+            s.add(p[0])
     for st in lib["structs"]:
         for e in st["elems"]:
             for f in ("datatype", "boxtype"):
@@ -742,13 +868,16 @@ def probes_of(lib):
     return sorted(s)
 
 def strip(c):
-    return {"fam": c.get("fam", "replay"), "lib": jsonable(c["lib"]), "noflat": bool(c.get("noflat"))}
+    o = {"fam": c.get("fam", "replay"), "lib": jsonable(c["lib"]), "noflat": bool(c.get("noflat"))}
+    if c.get("layers"):
+        o["layers"] = c["layers"]
+    return o
 def jsonable(lib):
     return G.to_json(lib)
 def unjson(c):
     """replay file -> case"""
     lib = G.from_json(c["lib"]) if isinstance(c["lib"]["name"], str) else c["lib"]
-    return {"fam": c.get("fam", "replay"), "lib": lib, "noflat": c.get("noflat")}
+    return {"fam": c.get("fam", "replay"), "lib": lib, "noflat": c.get("noflat"), "layers": c.get("layers")}
 
 def evaluate(chk, cases, cfg, tag):
     """-> list of (code, agree, impl summary)"""
@@ -756,7 +885,7 @@ def evaluate(chk, cases, cfg, tag):
         if c.get("noflat") is None:
             fc = [x for x in flat_counts(c["lib"]) if x is not None]
             c["noflat"] = bool(fc and max(fc) > 1200)
-    hc = [{"op": "import", "gds": jsonable(c["lib"]), "layers": None, "probe": probes_of(c["lib"]), "noflat": c["noflat"]} for c in cases]
+    hc = [{"op": "import", "gds": jsonable(c["lib"]), "layers": c.get("layers"), "probe": probes_of(c["lib"], c.get("layers")), "noflat": c["noflat"]} for c in cases]
     t0 = time.time()
     res = harness("c06", hc, timeout=1500)
     chk.cov.setdefault("timing_s", {})["harness_" + tag] = round(time.time() - t0, 1)
@@ -769,7 +898,8 @@ def evaluate(chk, cases, cfg, tag):
         if isinstance(r["lib"], dict) and "cells" in r["lib"] and not table_consistent(r["lib"]):
             out[i] = (1, 0, {"harness_glue": "layer table: num(purpose(n)) != n or keynum(num) is another slot", "layers": r["lib"]["layers"]})
             continue
-        items.append(capp("c06_check", Raw(cfg), Raw(zl(probes_of(c["lib"]))), Raw("[]"), glib(c["lib"]), cimpl(r, c["noflat"])))
+        items.append(capp("c06_check", Raw(cfg), Raw(zl(probes_of(c["lib"], c.get("layers")))), Raw(clayers_obs(c["layers"]) if c.get("layers") else "[]"),
+                          glib(c["lib"]), cimpl(r, c["noflat"])))
         idx.append(i)
     # balance the shards: sort by size, deal the items out round-robin (coq_eval_lists cuts consecutive chunks)
     by_size = sorted(range(len(items)), key=lambda k: -len(items[k]))
@@ -800,6 +930,7 @@ def run(chk, replay=None):
     chk.proof_leg(MODEL_TARGETS, "Properties/C06.v", PROOF_FILES + ["Raw/RawFlatten_proofs.v"], "Properties.C06")
     kernel_tie_leg(chk, "transform")
     kernel_tie_leg(chk, "raw_gds")       # GdsImporter::import_boundary generated from the source = the model (Properties/KernelsRaw2.v)
+    kernel_tie_leg(chk, "raw_gdsi")      # import_point / import_box / import_path / import_instance generated from the source = the model (Properties/KernelsRawGdsImport.v)
     chk.cov.setdefault("timing_s", {})["proof_leg"] = round(time.time() - t0, 1)
     chk.assumptions += [
         "isize/usize are 64 bit; the harness is built with overflow checks (an integer overflow is a panic)",
